@@ -32,7 +32,8 @@ MANIFEST = {
              "writer/reader pairs (.cif, .res, POSCAR, CONTCAR; unknown -> KeyError), every SHELX keyword has letters at positions 1-2, the atom line and "
              "POSCAR row formats. Proved for all inputs: a label 'symbol+digits' is never a keyword nor END; .res coordinates read back as the value rounded "
              "to 12 decimals, cell parameters within 5e-7, POSCAR rows to 8 decimals at fixed width. The structure-level round trip (same cell, number, "
-             "operation set, elements, labels, coordinates, occupancies) is checked on the real code for ALL 530 settings each run."),
+             "operation set, elements, labels, coordinates, occupancies) is checked on the real code for ALL 530 settings each run."
+             " For the CIF route an atom-site row (alphanumeric label + fixed-point columns) is cut into exactly its fields and every number reads back as its 12-decimal rounding (atom_site_row_tokens_alnum, fixedCore_reads_back; shared with C15)."),
     "note": "Trusted: Lean kernel; AST translator; cross-property composition by oracle; temp files under the system temp directory.",
     "technique": "Lean 4 proof (generated format/dispatch tables + decimal round-trip lemmas) + exhaustive 530-setting save/load oracle",
 }
